@@ -17,7 +17,7 @@ Line-protocol driver of C11 (model + spec monitor).  Ops:
              => path muxkind pattern kind status location contentLengthSeen glSeen stat issued now
      the same in gl-inet mode (GLMode on) with an Admin-Token cookie `glRaw`.
   C11.gltok  value => stat issued now 0|1     the real glCheckToken(value)
-  C11.start  store usersConfigured => started authNil kind
+  C11.start  store userList => started authNil kind usersKept
      the real initUsers on a data directory whose sessions.db is in state `store`.
   C11.chain  chain firstRun usersExist method path cookie basic ctype bodyLen => kind
      the real wrapper functions composed as `chain` around a stub handler.
@@ -257,9 +257,18 @@ def parseStore : String → Option StoreState
 returned is nil, `kind` = the answer to GET /control/status without credentials. -/
 def stepStart (ins impl : List String) : Option String := do
   match ins, impl with
-  | [store, users], [started, authNil, kind] =>
+  | [store, userList], [started, authNil, kind, kept] =>
     let st ← parseStore store
-    let users ← parseBool users
+    -- number of configured administrators; what their hashes look like is not
+    -- the model's business: InitAuth keeps every entry
+    let nUsers : Nat ← match userList with
+      | "0" => some 0
+      | "1" | "bad-plain" | "bad-empty" | "bad-trunc" | "bad-prefix" => some 1
+      | "mixed" | "mixed-badfirst" | "several" | "allbad2" => some 2
+      | _ => none
+    let cfg := List.replicate nUsers ()
+    let users := usersExistAfter cfg
+    let keptOK := kept == "-" || kept.toNat? == some (initAuthUsers cfg).length
     let started ← parseBool started
     let probe : Option Obs ← if kind == "-" then some none else (parseObs kind).map some
     let implNil ← if authNil == "-" then some none else (parseBool authNil).map some
@@ -274,8 +283,8 @@ def stepStart (ins impl : List String) : Option String := do
       | some (n, o) => "started\t" ++ (if n then "auth-nil" else "auth-ok") ++ "\t" ++ obsName o
     let agree := match model with
       | none => !started
-      | some (n, o) => started && implNil == some n && probe == some o
-    pure (verdict agree (startCheck users started probe) showM)
+      | some (n, o) => started && implNil == some n && probe == some o && keptOK
+    pure (verdict agree (startCheck (nUsers != 0) started probe) showM)
   | _, _ => none
 
 def parseWrapper (s : String) : Option Wrapper :=
